@@ -1,7 +1,7 @@
 (* QueryParse.v — filters over a query in disjunctive form, [?( b && b ... || b && b ... )], through the regenerated
    grammar: query is andQuery (|| andQuery)*, andQuery is basicQuery (&& basicQuery)*; a basic query here is an
    existence test @steps, its negation !@steps, or a comparison @steps OP number.  No blanks inside. *)
-From JP Require Import Peg Grammar Text Tree Actions PegFacts PegMono PegEv FuelRules ParseFacts KeyDefs KeyParse IdxParse SliceParse UnionParse WildParse RecParse ChainParse SpacePath FunParse AggParse Frame FiltParse CmpParse NegFilt LitParse NoDollar.
+From JP Require Import Peg Grammar Text Tree Actions PegFacts PegMono PegEv FuelRules ParseFacts KeyDefs KeyParse IdxParse SliceParse UnionParse WildParse RecParse ChainParse SpacePath FunParse AggParse Frame FiltParse CmpParse NegFilt LitParse RootOp NoDollar.
 From Coq Require Import Lia.
 Local Open Scope N_scope.
 Open Scope list_scope.
@@ -11,6 +11,9 @@ Definition bq_ok (b : bq) : bool :=
   | BE i | BN i => forallb rstep_ok i
   | BC i o lit => forallb rstep_ok i && negb (steps_vg i) && lit_ok lit
   | BL i ne l => forallb rstep_ok i && negb (steps_vg i) && litv_ok l
+  | BRE j | BRN j => forallb rstep_ok j
+  | BCR i o j => forallb rstep_ok i && negb (steps_vg i) && (forallb rstep_ok j && negb (steps_vg j)) &&
+                 match o with OLt | OLe | OGt | OGe => true | _ => false end
   end.
 Definition eq_text (ne : bool) : list N := if ne then [33; 61] else [61; 61].
 Definition bq_tokens (pos : nat) (b : bq) : list token :=
@@ -21,6 +24,10 @@ Definition bq_tokens (pos : nat) (b : bq) : list token :=
                   [TText pos (pos + (1 + List.length (render_steps i) + List.length (op_text o) + List.length lit)); TAct 26]
   | BL i ne l => left43_tokens pos i ++ litv_tokens (pos + 1 + List.length (render_steps i) + 2) l ++ [TAct 35; TAct (if ne then 29%nat else 28%nat)] ++
                  [TText pos (pos + (1 + List.length (render_steps i) + 2 + List.length (litv_text l))); TAct 26]
+  | BRE j => [TAct 38] ++ rtok pos j ++ [TAct 39; TText pos (pos + 1 + List.length (render_steps j)); TAct 27]
+  | BRN j => [TAct 38] ++ rtok (pos + 1) j ++ [TAct 39; TText pos (pos + 2 + List.length (render_steps j)); TAct 27]
+  | BCR i o j => left43_tokens pos i ++ right43_tokens (pos + 1 + List.length (render_steps i) + List.length (op_text o)) j ++ [TAct (op_act o)] ++
+                 [TText pos (pos + (1 + List.length (render_steps i) + List.length (op_text o) + (1 + List.length (render_steps j)))); TAct 26]
   end.
 
 Lemma bq_text_len b : List.length (bq_text b) =
@@ -29,15 +36,18 @@ Lemma bq_text_len b : List.length (bq_text b) =
   | BN i => (2 + List.length (render_steps i))%nat
   | BC i o lit => (1 + List.length (render_steps i) + List.length (op_text o) + List.length lit)%nat
   | BL i ne l => (1 + List.length (render_steps i) + 2 + List.length (litv_text l))%nat
+  | BRE j => (1 + List.length (render_steps j))%nat
+  | BRN j => (2 + List.length (render_steps j))%nat
+  | BCR i o j => (1 + List.length (render_steps i) + List.length (op_text o) + (1 + List.length (render_steps j)))%nat
   end.
-Proof. destruct b as [i|i|i o lit|i ne l]; cbn [bq_text List.length]; rewrite ?app_length; try lia. destruct ne; cbn [List.length]; lia. Qed.
+Proof. destruct b as [i|i|i o lit|i ne l|j|j|i o j]; cbn [bq_text List.length]; rewrite ?app_length; cbn [List.length]; try lia. destruct ne; cbn [List.length]; lia. Qed.
 Lemma bq_head b : exists x r, bq_text b = x :: r /\ x <> 32.
-Proof. destruct b as [i|i|i o lit|i ne l]; cbn [bq_text]; eexists _, _; (split; [reflexivity|discriminate]). Qed.
+Proof. destruct b as [i|i|i o lit|i ne l|j|j|i o j]; cbn [bq_text]; eexists _, _; (split; [reflexivity|discriminate]). Qed.
 
 Lemma ev35_bq b c t pos : bq_ok b = true -> qend c ->
   evG (PRef 35) (bq_text b ++ c :: t) pos (POk (c :: t) (pos + List.length (bq_text b)) (bq_tokens pos b)).
 Proof.
-  intros Hb Hq. rewrite bq_text_len. destruct b as [i|i|i o lit|i ne l]; cbn [bq_ok bq_text bq_tokens app] in *.
+  intros Hb Hq. rewrite bq_text_len. destruct b as [i|i|i o lit|i ne l|j|j|i o j]; cbn [bq_ok bq_text bq_tokens app] in *.
   - eapply ev_conv.
     + eapply ev_ref; [reflexivity|].
       apply ev_alt_r; [apply ev_seq_fail; eapply ev_ref; [reflexivity|]; apply ev_seq_fail; apply (ev_lit_fail G [40]); reflexivity|].
@@ -120,6 +130,84 @@ Proof.
     + replace (64 :: (render_steps i ++ [61; 61] ++ litv_text l) ++ c :: t) with (64 :: render_steps i ++ 61 :: 61 :: litv_text l ++ c :: t)
         by (cbn [app]; rewrite <- !app_assoc; reflexivity).
       apply (Hgen 61 28%nat). right. split; reflexivity.
+  - (* $ steps *) pose proof (qend_closer c Hq) as Hc. eapply ev_conv.
+    + eapply ev_ref; [reflexivity|].
+      apply ev_alt_r; [apply ev_seq_fail; eapply ev_ref; [reflexivity|]; apply ev_seq_fail; apply (ev_lit_fail G [40]); reflexivity|].
+      apply ev_alt_r; [apply ev_seq_fail; apply ev_cap_fail; apply (ev_rule39_root_q j c t pos Hb Hq)|].
+      eapply ev_seq_ok; [apply ev_cap| apply ev_act |reflexivity].
+      eapply ev_seq_ok; [apply ev_opt_none; eapply ev_ref; [reflexivity|]; apply ev_seq_fail; apply (ev_lit_fail G [33]); reflexivity| |reflexivity].
+      apply (ev_rule44_root j c t pos Hb Hc).
+    + f_equal; try lia. repeat (progress (cbn [app]) || rewrite <- app_assoc || rewrite app_nil_r). reflexivity.
+  - (* !$ steps *) pose proof (qend_closer c Hq) as Hc. eapply ev_conv.
+    + eapply ev_ref; [reflexivity|].
+      apply ev_alt_r; [apply ev_seq_fail; eapply ev_ref; [reflexivity|]; apply ev_seq_fail; apply (ev_lit_fail G [40]); reflexivity|].
+      apply ev_alt_r; [apply ev_seq_fail; apply ev_cap_fail; apply ev_rule39_bang|].
+      eapply ev_seq_ok; [apply ev_cap| apply ev_act |reflexivity].
+      eapply ev_seq_ok; [apply ev_opt_some; eapply ev_ref; [reflexivity|];
+                         eapply ev_seq_ok; [apply (ev_lit_ok G [33]); apply strip1_ok|apply ev_space_stop; discriminate|reflexivity]| |reflexivity].
+      apply (ev_rule44_root j c t _ Hb Hc).
+    + cbn [List.length app Nat.add]. f_equal; try lia.
+      replace (pos + 1 + 0)%nat with (pos + 1)%nat by lia. replace (pos + 1 + 1 + List.length (render_steps j))%nat with (pos + 2 + List.length (render_steps j))%nat by lia.
+      repeat (progress (cbn [app]) || rewrite <- app_assoc || rewrite app_nil_r). reflexivity.
+  - (* @ steps OP $ steps *)
+    apply andb_true_iff in Hb. destruct Hb as [Hb Ho]. apply andb_true_iff in Hb. destruct Hb as [Hb Hj]. apply andb_true_iff in Hb. destruct Hb as [Hs _].
+    apply andb_true_iff in Hj. destruct Hj as [Hsj _]. pose proof (qend_closer c Hq) as Hc.
+    set (Li := List.length (render_steps i)). set (Lj := List.length (render_steps j)).
+    replace (64 :: (render_steps i ++ op_text o ++ 36 :: render_steps j) ++ c :: t) with (64 :: render_steps i ++ op_text o ++ 36 :: render_steps j ++ c :: t)
+      by (cbn [app]; rewrite <- !app_assoc; reflexivity).
+    destruct (closer_op o (36 :: render_steps j ++ c :: t)) as (c1 & r' & Eop & Hc1).
+    assert (E43l : evG (PRef 43) (64 :: render_steps i ++ op_text o ++ 36 :: render_steps j ++ c :: t) pos
+                       (POk (op_text o ++ 36 :: render_steps j ++ c :: t) (pos + 1 + Li) (left43_tokens pos i))).
+    { rewrite Eop. apply (ev_rule43_c i c1 r' pos Hs Hc1). }
+    assert (Hsp : forall q, evG (PRef 58) (op_text o ++ 36 :: render_steps j ++ c :: t) q (POk (op_text o ++ 36 :: render_steps j ++ c :: t) q [])).
+    { intros q. destruct o; cbn [op_text app]; apply ev_space_stop; discriminate. }
+    (* the first alternative (== / !=) fails after the operand: an ordering operator follows *)
+    assert (A1 : evG (PSeq (PRef 40) (PSeq (PRef 58) (PAlt (PSeq (PLit [61; 61]) (PSeq (PRef 58) (PSeq (PRef 40) (PAct 28))))
+                                                          (PSeq (PLit [33; 61]) (PSeq (PRef 58) (PSeq (PRef 40) (PAct 29)))))))
+                     (64 :: render_steps i ++ op_text o ++ 36 :: render_steps j ++ c :: t) pos PFail).
+    { eapply ev_seq_fail2; [eapply ev_ref; [reflexivity|]; apply ev_alt_r; [apply ev_seq_fail; apply ev_rule42_at|exact E43l]|].
+      eapply ev_seq_fail2; [apply Hsp|].
+      destruct o; try discriminate Ho; cbn [op_text app]; apply ev_alt_r; apply ev_seq_fail; apply (ev_lit_fail G); reflexivity. }
+    (* operator, blanks, the root operand, the action *)
+    assert (Eright : forall k p, evG (PSeq (PRef 58) (PSeq (PRef 41) (PAct k))) (36 :: render_steps j ++ c :: t) p
+                                 (POk (c :: t) (p + 1 + Lj) (right43_tokens p j ++ [TAct k]))).
+    { intros k p. eapply ev_conv.
+      - eapply ev_seq_ok; [apply ev_space_stop; discriminate| |reflexivity].
+        eapply ev_seq_ok; [|apply ev_act|reflexivity].
+        eapply ev_ref; [reflexivity|]. apply ev_alt_r; [apply ev_seq_fail; apply ev_rule45_nonnum; reflexivity|]. apply (ev_rule43_root j c t _ Hsj Hc).
+      - cbn [app]. reflexivity. }
+    set (K := List.length (op_text o)).
+    assert (Ealt : evG (PAlt (PSeq (PLit [60; 61]) (PSeq (PRef 58) (PSeq (PRef 41) (PAct 30))))
+                         (PAlt (PSeq (PLit [60]) (PSeq (PRef 58) (PSeq (PRef 41) (PAct 31))))
+                         (PAlt (PSeq (PLit [62; 61]) (PSeq (PRef 58) (PSeq (PRef 41) (PAct 32))))
+                               (PSeq (PLit [62]) (PSeq (PRef 58) (PSeq (PRef 41) (PAct 33)))))))
+                       (op_text o ++ 36 :: render_steps j ++ c :: t) (pos + 1 + Li)
+                       (POk (c :: t) (pos + 1 + Li + K + 1 + Lj) (right43_tokens (pos + 1 + Li + K) j ++ [TAct (op_act o)]))).
+    { unfold K. destruct o; try discriminate Ho; cbn [op_text app op_act List.length].
+      - eapply ev_conv; [|reflexivity].
+        apply ev_alt_r; [apply ev_seq_fail; apply (ev_lit_fail G [60; 61]); reflexivity|].
+        apply ev_alt_l. eapply ev_seq_ok; [apply (ev_lit_ok G [60]); apply strip1_ok|apply (Eright 31%nat)|reflexivity].
+      - eapply ev_conv; [|reflexivity].
+        apply ev_alt_l. eapply ev_seq_ok; [apply (ev_lit_ok G [60; 61]); reflexivity|apply (Eright 30%nat)|reflexivity].
+      - eapply ev_conv; [|reflexivity].
+        apply ev_alt_r; [apply ev_seq_fail; apply (ev_lit_fail G [60; 61]); reflexivity|].
+        apply ev_alt_r; [apply ev_seq_fail; apply (ev_lit_fail G [60]); reflexivity|].
+        apply ev_alt_r; [apply ev_seq_fail; apply (ev_lit_fail G [62; 61]); reflexivity|].
+        eapply ev_seq_ok; [apply (ev_lit_ok G [62]); apply strip1_ok|apply (Eright 33%nat)|reflexivity].
+      - eapply ev_conv; [|reflexivity].
+        apply ev_alt_r; [apply ev_seq_fail; apply (ev_lit_fail G [60; 61]); reflexivity|].
+        apply ev_alt_r; [apply ev_seq_fail; apply (ev_lit_fail G [60]); reflexivity|].
+        apply ev_alt_l. eapply ev_seq_ok; [apply (ev_lit_ok G [62; 61]); reflexivity|apply (Eright 32%nat)|reflexivity]. }
+    eapply ev_conv.
+    + eapply ev_ref; [reflexivity|].
+      apply ev_alt_r; [apply ev_seq_fail; eapply ev_ref; [reflexivity|]; apply ev_seq_fail; apply (ev_lit_fail G [40]); reflexivity|].
+      apply ev_alt_l. eapply ev_seq_ok; [apply ev_cap|apply ev_act|reflexivity].
+      eapply ev_ref; [reflexivity|]. apply ev_alt_r; [exact A1|]. apply ev_alt_l.
+      eapply ev_seq_ok; [eapply ev_ref; [reflexivity|]; apply ev_alt_r; [apply ev_seq_fail; apply ev_rule45_at|exact E43l]| |reflexivity].
+      eapply ev_seq_ok; [apply Hsp|exact Ealt|reflexivity].
+    + fold Li Lj K. f_equal; try lia.
+      replace (pos + 1 + Li + K + 1 + Lj)%nat with (pos + (1 + Li + K + (1 + Lj)))%nat by lia.
+      repeat (progress (cbn [app]) || rewrite <- app_assoc || rewrite app_nil_r). reflexivity.
 Qed.
 
 (* ---------- conjunctions ---------- *)
@@ -319,6 +407,9 @@ Section QueryExec.
     | BN i => QNot (QParam (filter_pq cfg i))
     | BC i o lit => cmp_query cfg i o (qnum lit)
     | BL i ne l => if ne then QNot (lit_cmp i l) else lit_cmp i l
+    | BRE j => QParam (root_pq cfg j)
+    | BRN j => QNot (QParam (root_pq cfg j))
+    | BCR i o j => QCmp (cmp_left cfg i) (CP (root_pq cfg j) true) (match o with OLt => CLt | OLe => CLe | OGt => CGt | _ => CGe end)
     end.
 
   Lemma unescape_plain q body : forallb (plain_for q) body = true -> unescape_cps body = body.
@@ -352,7 +443,7 @@ Section QueryExec.
   Lemma exec_bq input p b rest ps toks cps bg : bq_ok b = true -> bq_okp b = true -> skipn p input = bq_text b ++ rest ->
     exists cps' b', execute (bq_tokens p b ++ toks) input cps bg (mk ps) = execute toks input cps' b' (mk (ps ++ [IQuery (bq_query b)])).
   Proof.
-    intros Hb Hp Hin. destruct b as [i|i|i o lit|i ne l]; cbn [bq_ok bq_okp bq_text bq_tokens bq_query] in *.
+    intros Hb Hp Hin. destruct b as [i|i|i o lit|i ne l|j|j|i o j]; cbn [bq_ok bq_okp bq_text bq_tokens bq_query] in *.
     - set (L := List.length (render_steps i)).
       replace (([TAct 38] ++ inner_tokens p i ++ [TAct 39; TText p (p + 1 + L); TAct 27]) ++ toks)
         with ([TAct 38] ++ inner_tokens p i ++ [TAct 39] ++ ([TText p (p + 1 + L); TAct 27] ++ toks))
@@ -474,6 +565,80 @@ Section QueryExec.
       assert (E26 : forall c0 b0 q, (q = lit_cmp i l \/ q = QNot (lit_cmp i l)) -> exec_action 26 c0 b0 (mk (ps ++ [IQuery q])) = AOk (mk (ps ++ [IQuery q]))).
       { intros c0 b0 q [E|E]; subst q; cbn [Actions.exec_action]; rewrite pop_mk; reflexivity. }
       rewrite E26 by (destruct ne; auto). cbn [abind]. eexists _, _. reflexivity.
+    - set (L := List.length (render_steps j)).
+      replace (([TAct 38] ++ rtok p j ++ [TAct 39; TText p (p + 1 + L); TAct 27]) ++ toks)
+        with ([TAct 38] ++ rtok p j ++ [TAct 39] ++ ([TText p (p + 1 + L); TAct 27] ++ toks))
+        by (repeat (progress (cbn [app]) || rewrite <- app_assoc); reflexivity).
+      cbn [app] in Hin. rewrite (exec_operand_root cfg parse_float regex_ok input p j rest ps _ cps bg Hb Hin). cbn [app Actions.execute].
+      assert (Ec : sub_list input p (p + 1 + L) = 36 :: render_steps j).
+      { pose proof (sub_at input p 0 [] (36 :: render_steps j) rest) as H. rewrite Nat.add_0_r in H. cbn [List.length] in H. fold L in H.
+        replace (p + S L)%nat with (p + 1 + L)%nat in H by lia. apply H; [exact Hin|reflexivity]. }
+      rewrite Ec.
+      assert (E27 : forall b0, exec_action 27 (36 :: render_steps j) b0 (mk (ps ++ [IPQ (root_pq cfg j); IBool true])) =
+                               AOk (mk (ps ++ [IQuery (QParam (root_pq cfg j))]))).
+      { intros b0. cbn [Actions.exec_action].
+        change (ps ++ [IPQ (root_pq cfg j); IBool true]) with (ps ++ [IPQ (root_pq cfg j)] ++ [IBool true]). rewrite app_assoc, pop_mk. cbn [abind].
+        unfold pop_query. rewrite pop_mk. cbn [abind]. reflexivity. }
+      rewrite E27. cbn [abind]. eexists _, _. reflexivity.
+    - set (L := List.length (render_steps j)).
+      replace (([TAct 38] ++ rtok (p + 1) j ++ [TAct 39; TText p (p + 2 + L); TAct 27]) ++ toks)
+        with ([TAct 38] ++ rtok (p + 1) j ++ [TAct 39] ++ ([TText p (p + 2 + L); TAct 27] ++ toks))
+        by (repeat (progress (cbn [app]) || rewrite <- app_assoc); reflexivity).
+      cbn [app] in Hin.
+      assert (Hin1 : skipn (p + 1) input = 36 :: render_steps j ++ rest) by (apply (skipn_next input p [33] _ Hin)).
+      rewrite (exec_operand_root cfg parse_float regex_ok input (p + 1) j rest ps _ cps bg Hb Hin1). cbn [app Actions.execute].
+      assert (Ec : sub_list input p (p + 2 + L) = 33 :: 36 :: render_steps j).
+      { pose proof (sub_at input p 0 [] (33 :: 36 :: render_steps j) rest) as H. rewrite Nat.add_0_r in H. cbn [List.length] in H. fold L in H.
+        replace (p + S (S L))%nat with (p + 2 + L)%nat in H by lia. apply H; [exact Hin|reflexivity]. }
+      rewrite Ec.
+      assert (E27 : forall b0, exec_action 27 (33 :: 36 :: render_steps j) b0 (mk (ps ++ [IPQ (root_pq cfg j); IBool true])) =
+                               AOk (mk (ps ++ [IQuery (QNot (QParam (root_pq cfg j)))]))).
+      { intros b0. cbn [Actions.exec_action].
+        change (ps ++ [IPQ (root_pq cfg j); IBool true]) with (ps ++ [IPQ (root_pq cfg j)] ++ [IBool true]). rewrite app_assoc, pop_mk. cbn [abind].
+        unfold pop_query. rewrite pop_mk. cbn [abind]. reflexivity. }
+      rewrite E27. cbn [abind]. eexists _, _. reflexivity.
+    - apply andb_true_iff in Hb. destruct Hb as [Hb Ho]. apply andb_true_iff in Hb. destruct Hb as [Hb Hj]. apply andb_true_iff in Hb. destruct Hb as [Hs Hvg].
+      apply andb_true_iff in Hj. destruct Hj as [Hsj Hvgj]. apply negb_true_iff in Hvg. apply negb_true_iff in Hvgj.
+      set (Li := List.length (render_steps i)). set (Lj := List.length (render_steps j)). set (K := List.length (op_text o)).
+      unfold left43_tokens, right43_tokens. fold Li Lj K.
+      assert (Hin' : skipn p input = 64 :: render_steps i ++ op_text o ++ 36 :: render_steps j ++ rest) by (rewrite Hin; cbn [app]; rewrite <- !app_assoc; reflexivity).
+      replace ((([TAct 38] ++ inner_tokens p i ++ [TAct 39; TText p (p + 1 + Li); TAct 37]) ++
+                ([TAct 38] ++ rtok (p + 1 + Li + K) j ++ [TAct 39; TText (p + 1 + Li + K) (p + 1 + Li + K + 1 + Lj); TAct 37]) ++
+                [TAct (op_act o)] ++ [TText p (p + (1 + Li + K + (1 + Lj))); TAct 26]) ++ toks)
+        with ([TAct 38] ++ inner_tokens p i ++ [TAct 39] ++
+              ([TText p (p + 1 + Li); TAct 37] ++ ([TAct 38] ++ rtok (p + 1 + Li + K) j ++ [TAct 39] ++
+               ([TText (p + 1 + Li + K) (p + 1 + Li + K + 1 + Lj); TAct 37; TAct (op_act o); TText p (p + (1 + Li + K + (1 + Lj))); TAct 26] ++ toks))))
+        by (repeat (progress (cbn [app]) || rewrite <- app_assoc); reflexivity).
+      rewrite (exec_operand input p i _ ps _ cps bg Hs Hin').
+      assert (E37 : forall c0 b0, exec_action 37 c0 b0 (mk (ps ++ [IPQ (filter_pq cfg i); IBool false])) = AOk (mk (ps ++ [ICParam (cmp_left cfg i)]))).
+      { intros c0 b0. cbn [Actions.exec_action].
+        change (ps ++ [IPQ (filter_pq cfg i); IBool false]) with (ps ++ [IPQ (filter_pq cfg i)] ++ [IBool false]). rewrite app_assoc, pop_mk. cbn [abind].
+        rewrite pop_mk. cbn [abind]. unfold cmp_left, filter_pq. rewrite (operand_vg cfg), Hvg. reflexivity. }
+      match goal with |- context [execute ([TText ?b1 ?e1; TAct 37] ++ ?tl) input ?c0 ?b0 ?st] =>
+        change (execute ([TText b1 e1; TAct 37] ++ tl) input c0 b0 st)
+          with (abind (exec_action 37 (sub_list input b1 e1) b1 st) (fun st' => execute tl input (sub_list input b1 e1) b1 st')) end.
+      rewrite E37. cbn [abind].
+      assert (Hinj : skipn (p + 1 + Li + K) input = 36 :: render_steps j ++ rest).
+      { set (X := (64 :: render_steps i) ++ op_text o).
+        pose proof (skipn_next input p X (36 :: render_steps j ++ rest)) as H.
+        assert (HX : List.length X = (1 + Li + K)%nat) by (unfold X; rewrite app_length; cbn [List.length]; unfold Li, K; lia).
+        rewrite HX in H. replace (p + (1 + Li + K))%nat with (p + 1 + Li + K)%nat in H by lia.
+        apply H. rewrite Hin'. unfold X. cbn [app]. rewrite <- !app_assoc. reflexivity. }
+      rewrite (exec_operand_root cfg parse_float regex_ok input (p + 1 + Li + K) j rest (ps ++ [ICParam (cmp_left cfg i)]) _ _ _ Hsj Hinj). cbn [app Actions.execute].
+      assert (E37r : forall c0 b0, exec_action 37 c0 b0 (mk ((ps ++ [ICParam (cmp_left cfg i)]) ++ [IPQ (root_pq cfg j); IBool true])) =
+                                  AOk (mk ((ps ++ [ICParam (cmp_left cfg i)]) ++ [ICParam (CP (root_pq cfg j) true)]))).
+      { intros c0 b0. cbn [Actions.exec_action].
+        change ((ps ++ [ICParam (cmp_left cfg i)]) ++ [IPQ (root_pq cfg j); IBool true]) with ((ps ++ [ICParam (cmp_left cfg i)]) ++ [IPQ (root_pq cfg j)] ++ [IBool true]).
+        rewrite app_assoc, pop_mk. cbn [abind]. rewrite pop_mk. cbn [abind]. unfold root_pq. rewrite (root_operand_vg cfg), Hvgj. reflexivity. }
+      rewrite E37r. cbn [abind].
+      assert (Eop : forall c0 b0, exec_action (op_act o) c0 b0 (mk ((ps ++ [ICParam (cmp_left cfg i)]) ++ [ICParam (CP (root_pq cfg j) true)])) =
+                                 AOk (mk (ps ++ [IQuery (QCmp (cmp_left cfg i) (CP (root_pq cfg j) true) (match o with OLt => CLt | OLe => CLe | OGt => CGt | _ => CGe end))]))).
+      { intros c0 b0. destruct o; try discriminate Ho; cbn [op_act Actions.exec_action]; unfold two_operands, pop_cparam; rewrite pop_mk; cbn [abind]; rewrite pop_mk; cbn [abind]; reflexivity. }
+      rewrite Eop. cbn [abind].
+      assert (E26 : forall c0 b0 c1, exec_action 26 c0 b0 (mk (ps ++ [IQuery (QCmp (cmp_left cfg i) (CP (root_pq cfg j) true) c1)])) =
+                                    AOk (mk (ps ++ [IQuery (QCmp (cmp_left cfg i) (CP (root_pq cfg j) true) c1)]))).
+      { intros c0 b0 c1. cbn [Actions.exec_action]. rewrite pop_mk. reflexivity. }
+      rewrite E26. cbn [abind]. eexists _, _. reflexivity.
   Qed.
 
   Definition conj_query (c : list bq) : query :=
